@@ -22,7 +22,10 @@ Definition C15_full_statement : Prop :=
     /\ (forall s, rep_stmt A B s = Ok (subst_stmt A B s))
     /\ (forall C t, tref_eqb C A = false -> tref_eqb C B = false -> count C (rep A B t) = count C t).
 
-(* The faithful model still refutes it: a sub-query in FROM is compared with ==, never entered, and keeps table a. *)
+(* The faithful model still refutes it: QueryBuilder.set() wraps every value in a ValueWrapper, whose replace_table is
+   Term's no-op, so the value of a SET pair keeps table a although _updates is visited. *)
+Definition set_value : stmt :=
+  with_ (stmt0 false) [SrcTable wc] None (Some wa) [] [] [] [] None None [] None [] [] [(fa "c0", WT (fa "y"))] [] [].
 Definition sub_from : stmt :=
   with_ (stmt0 false) [SrcSub qa (Some "sq")] None None [] [WT (fc "y")] [] [] None None [] None [] [] [] [] [].
 Definition sub_join : stmt := join_stmt (JOn "" (SrcSub qa (Some "j0")) (WT (cc "k"))).
@@ -30,7 +33,7 @@ Definition sub_cross : stmt := join_stmt (JCross (SrcSub qa (Some "cj"))).
 Theorem C15_refuted : ~ C15_full_statement.
 Proof.
   intro H. destruct (H wa wb) as [_ [_ [Hs _]]].
-  specialize (Hs sub_from). vm_compute in Hs. discriminate Hs.
+  specialize (Hs set_value). vm_compute in Hs. discriminate Hs.
 Qed.
 Print Assumptions C15_refuted.
 
@@ -59,13 +62,23 @@ Theorem C15_visited_slots_witnessed : forallb witness_agrees visited_pairs = tru
 Proof. vm_compute. reflexivity. Qed.
 Print Assumptions C15_visited_slots_witnessed.
 
-(* sub-queries sitting where the code compares with == are never entered: FROM, JoinOn item, plain Join item *)
-Theorem C15_refuted_subqueries :
-  rep_show wa wb (OS sub_from) <> subst_show wa wb (OS sub_from)
-  /\ rep_show wa wb (OS sub_join) <> subst_show wa wb (OS sub_join)
-  /\ rep_show wa wb (OS sub_cross) <> subst_show wa wb (OS sub_cross).
-Proof. repeat split; vm_compute; discriminate. Qed.
-Print Assumptions C15_refuted_subqueries.
+(* sub-queries as FROM item, JoinOn item and plain Join item are entered since 6a71a3e ... *)
+Theorem C15_subqueries_entered :
+  rep_show wa wb (OS sub_from) = subst_show wa wb (OS sub_from)
+  /\ rep_show wa wb (OS sub_join) = subst_show wa wb (OS sub_join)
+  /\ rep_show wa wb (OS sub_cross) = subst_show wa wb (OS sub_cross)
+  /\ cov_stmt wa sub_from = true /\ cov_stmt wa sub_join = true /\ cov_stmt wa sub_cross = true.
+Proof. vm_compute. repeat split. Qed.
+Print Assumptions C15_subqueries_entered.
+(* ... whereas the comparison-only handling of the code before 6a71a3e (mode MCmp) leaves table a in all three *)
+Definition cmp_cfg : cfg :=
+  {| cvis := cvis tcfg; c_with_by_call := false; c_src_mode := fun _ => MCmp; c_with_ok := false; c_item_ok := false |}.
+Theorem C15_cmp_mode_misses_subqueries :
+  forallb (fun s => match Replace.rep_stmt cmp_cfg wa wb s with
+                    | Ok s' => negb (String.eqb (show_stmt s') (show_stmt (subst_stmt wa wb s)))
+                    | Err _ => false end) [sub_from; sub_join; sub_cross] = true.
+Proof. vm_compute. reflexivity. Qed.
+Print Assumptions C15_cmp_mode_misses_subqueries.
 
 (* the TypeError of the code before 11d7c56, kept as a theorem about the generic model: whenever _with is handled by
    calling replace_table on an AliasedQuery (which has no such method), any non-empty WITH list raises; with today's
@@ -78,7 +91,7 @@ Proof.
 Qed.
 Print Assumptions C15_with_by_call_raises.
 Example C15_no_raise_today :
-  c_with_by_call tcfg = false /\ c_join_by_call tcfg = false
+  c_with_by_call tcfg = false /\ c_src_mode tcfg KJoin = MCmpEnter
   /\ (exists s', rep_stmt wa wb (with_ (stmt0 false) [SrcTable wa] None None [("w", qa)] [WT (fa "x")] [] [] None None [] None []
                                         [JCross (SrcTable wa)] [] [] []) = Ok s'
                   /\ show_stmt s' = "Q FROM[""b""] INS[] UPD[] WITH[w=SELECT ""k"" FROM ""b""] SEL[""b"".""x""] COL[] VAL[] WHERE[] PRE[] GRP[] HAV[] ORD[] JOIN[Join::""b""] SET[] LBY[] STAR[]").
